@@ -96,8 +96,8 @@ func c10gKeyring(c *eng.Ctx) {
 		}
 		c.Floor(f, "store of the clone's key map", fresh, 1)
 		var copies []ssa.Instruction
-		for _, cp := range eng.Calls(f, `^maps\.Copy\b`) {
-			if a := cp.Common().Args; len(a) == 2 && eng.Expr(a[1]) == "k.keys" {
+		for _, cp := range kCalls(f, `^maps\.Copy\b`) {
+			if a := kArgs(cp); len(a) == 2 && eng.Expr(a[1]) == "k.keys" {
 				copies = append(copies, cp)
 			}
 		}
@@ -119,8 +119,8 @@ func c10gKeyring(c *eng.Ctx) {
 	if f := c.Fn("barrier.(*Keyring).Serialize"); f != nil {
 		c.Clause("R4", "C10.7")
 		var appends []ssa.Instruction
-		for _, ap := range eng.Calls(f, `^append$`) {
-			if strings.HasSuffix(eng.Expr(ap.Common().Args[0]), ".Keys") {
+		for _, ap := range kCalls(f, `^append$`) {
+			if strings.HasSuffix(eng.Expr(kArgs(ap)[0]), ".Keys") {
 				appends = append(appends, ap)
 			}
 		}
@@ -169,7 +169,7 @@ func c10gZeroizeCallers(c *eng.Ctx) {
 	sites := c.P.FindCalls(mustStatic(c, "barrier.(*Keyring).Zeroize"), nil)
 	c.Floor(nil, "calls of Keyring.Zeroize", len(sites), 4)
 	for _, s := range sites {
-		a := s.Call.Common().Args
+		a := kArgs(s.Call)
 		site := "Zeroize(keysToo) outside Seal leaves key values alone"
 		switch {
 		case eng.Expr(a[len(a)-1]) == "false":
@@ -189,16 +189,16 @@ func c10gAeadForTerm(c *eng.Ctx) {
 		return
 	}
 	c.Clause("R5", "C10.4")
-	tk := eng.Calls(f, `barrier\.\(\*Keyring\)\.TermKey$`)
+	tk := kCalls(f, `barrier\.\(\*Keyring\)\.TermKey$`)
 	if c.Floor(f, "Keyring.TermKey", len(tk), 1) {
 		for _, t := range tk {
-			c.Prov(f, "term whose key is looked up", t, t.Common().Args[1], `^param:term$`)
+			c.Prov(f, "term whose key is looked up", t, kArgs(t)[1], `^param:term$`)
 		}
 	}
-	ak := eng.Calls(f, `barrier\.\(\*AESGCMBarrier\)\.aeadFromKey$`)
+	ak := kCalls(f, `barrier\.\(\*AESGCMBarrier\)\.aeadFromKey$`)
 	if c.Floor(f, "aeadFromKey", len(ak), 1) {
 		for _, a := range ak {
-			c.Prov(f, "key the term's AEAD is built from", a, a.Common().Args[1], `^field:barrier\.\(\*Keyring\)\.TermKey\(\)\.Value$`)
+			c.Prov(f, "key the term's AEAD is built from", a, kArgs(a)[1], `^field:barrier\.\(\*Keyring\)\.TermKey\(\)\.Value$`)
 		}
 	}
 	n := 0
@@ -231,10 +231,10 @@ func c10gInitializeOnce(c *eng.Ctx) {
 		return
 	}
 	c.Clause("R2", "C10.4")
-	p := eng.Calls(f, `barrier\.\(\*AESGCMBarrier\)\.persistKeyring(BestEffort|Internal)?$`)
+	p := kCalls(f, `barrier\.\(\*AESGCMBarrier\)\.persistKeyring(BestEffort|Internal)?$`)
 	if c.Floor(f, "persist of the first keyring", len(p), 1) {
 		c.Cut(f, "persist of the first keyring", instrsOf(p), eng.G(f, `^barrier\.\(\*AESGCMBarrier\)\.Initialized\(\)#0$`, false), nil)
-		c.Cut(f, "persist of the first keyring", instrsOf(p), eng.GCallOK(f, `barrier\.\(\*AESGCMBarrier\)\.Initialized$`), nil)
+		c.Cut(f, "persist of the first keyring", instrsOf(p), nfGCallOK(f, `barrier\.\(\*AESGCMBarrier\)\.Initialized$`), nil)
 	}
 }
 
@@ -297,7 +297,7 @@ func c10gRotationSiblings(c *eng.Ctx) {
 		var calls [][]ssa.CallInstruction
 		okAll := true
 		for _, s := range t.steps {
-			cs := eng.Calls(f, s.pat)
+			cs := kCalls(f, s.pat)
 			if len(cs) == 0 {
 				okAll = false
 				c.Violation(f, "durable-write-step{"+s.desc+"}", f.Pos(), "the rotation no longer performs "+s.desc+": the frozen write sequence changed", nil)
@@ -321,11 +321,11 @@ func c10gRotationSiblings(c *eng.Ctx) {
 		}
 		c.Clause("R5", "C10.6")
 		for _, r := range calls[1] {
-			ra := r.Common().Args
+			ra := kArgs(r)
 			key := ra[len(ra)-1]
 			c.Prov(f, "root key rotated in", r, key, `^call:<barrier\.SecurityBarrier>\.GenerateKey#0$`)
 			for _, s := range calls[0] {
-				sa := s.Common().Args
+				sa := kArgs(s)
 				elems := c10gSliceLitElems(sa[len(sa)-1])
 				site := "stored key == root key rotated in"
 				switch {
@@ -340,7 +340,7 @@ func c10gRotationSiblings(c *eng.Ctx) {
 		}
 		if len(t.steps) > 2 {
 			for _, p := range calls[2] {
-				a := p.Common().Args
+				a := kArgs(p)
 				for _, v := range eng.StructLitField(a[len(a)-1], "Key") {
 					c.Prov(f, "key of the shamir KEK record", p, v, `^const:"core/shamir-kek"$`)
 				}
@@ -363,13 +363,13 @@ func c10gUpgradeDrivers(c *eng.Ctx) {
 		c.Clause("R5", "C10.5")
 		c.Floor(nil, "CreateUpgrade / DestroyUpgrade calls in package vault", len(sites), 2)
 		for _, s := range sites {
-			a := s.Call.Common().Args
+			a := kArgs(s.Call)
 			term := a[len(a)-1]
-			what := "term handed to " + s.Call.Common().Method.Name()
+			what := "term handed to " + kMethod(s.Call)
 			if s.Fn.Parent() == nil {
 				c.Prov(s.Fn, what, s.Call, term, rot0)
 				c.Clause("R2", "C10.5")
-				c.Cut(s.Fn, s.Call.Common().Method.Name(), []ssa.Instruction{s.Call}, eng.GCallOK(s.Fn, `<barrier\.SecurityBarrier>\.Rotate$`), nil)
+				c.Cut(s.Fn, kMethod(s.Call), []ssa.Instruction{s.Call}, nfGCallOK(s.Fn, `<barrier\.SecurityBarrier>\.Rotate$`), nil)
 				c.Clause("R5", "C10.5")
 				continue
 			}
@@ -407,7 +407,7 @@ func c10gUpgradeDrivers(c *eng.Ctx) {
 
 	if f := c.Fn("vault.(*Core).checkKeyringUpgrade"); f != nil {
 		c.Clause("R4", "C10.5")
-		cu := eng.Calls(f, `<barrier\.SecurityBarrier>\.CheckUpgrade$`)
+		cu := kCalls(f, `<barrier\.SecurityBarrier>\.CheckUpgrade$`)
 		if c.Floor(f, "CheckUpgrade", len(cu), 1) {
 			c.CleanupOnEdges(f, "an upgrade term was installed", eng.CondEdges(f, `^<barrier\.SecurityBarrier>\.CheckUpgrade\(\)#0$`, true), "another CheckUpgrade", instrsOf(cu))
 		}
@@ -423,7 +423,7 @@ func c10gUpgradeDrivers(c *eng.Ctx) {
 		}
 		var prev []ssa.CallInstruction
 		for i, s := range steps {
-			cs := eng.Calls(f, s.pat)
+			cs := kCalls(f, s.pat)
 			if len(cs) == 0 {
 				c.Violation(f, "reload-step{"+s.desc+"}", f.Pos(), "a node taking over no longer performs "+s.desc, nil)
 				break
@@ -472,14 +472,14 @@ func c10gSealAll(c *eng.Ctx) {
 		return
 	}
 	c.Clause("R3", "C10.2")
-	walks := eng.Calls(f, `go-radix\.Tree\)\.Walk$`)
+	walks := kCalls(f, `go-radix\.Tree\)\.Walk$`)
 	if !c.Floor(f, "walk over the barriers", len(walks), 1) {
 		return
 	}
 	c.Before(f, "walk over every barrier", instrsOf(walks), "return", instrsOf(eng.Returns(f)))
 	n := 0
 	for _, w := range walks {
-		a := w.Common().Args
+		a := kArgs(w)
 		mc, ok := c10StripConv(a[len(a)-1]).(*ssa.MakeClosure)
 		if !ok {
 			c.Undecided(f, "walk callback", w.Pos(), "the walk callback is not a closure literal")
@@ -494,7 +494,7 @@ func c10gSealAll(c *eng.Ctx) {
 				c.Violation(cb, "the walk is never terminated early", r.Pos(), "the callback may return "+eng.ExprDeep(r.Results[0])+": the walk stops and the remaining barriers keep their keyrings after the core sealed", nil)
 			}
 		}
-		seals := eng.Calls(cb, `<barrier\.SecurityBarrier>\.Seal$`)
+		seals := kCalls(cb, `<barrier\.SecurityBarrier>\.Seal$`)
 		n += len(seals)
 		c.Clause("R4", "C10.2")
 		if len(seals) > 0 {
@@ -511,8 +511,8 @@ func c10gSealAll(c *eng.Ctx) {
 func c10gKeyVerification(c *eng.Ctx) {
 	if f := c.Fn("vault.(*SealManager).unsealKeyToRootKey"); f != nil {
 		c.Clause("R2", "C10.3")
-		gets := eng.Calls(f, `<vault\.Seal>\.GetStoredKeys$`)
-		checks := append(eng.Calls(f, `aead\.Wrapper\)\.SetAesGcmKeyBytes$`), eng.Calls(f, `<vault\.Seal>\.VerifyRecoveryKey$`)...)
+		gets := kCalls(f, `<vault\.Seal>\.GetStoredKeys$`)
+		checks := append(kCalls(f, `aead\.Wrapper\)\.SetAesGcmKeyBytes$`), kCalls(f, `<vault\.Seal>\.VerifyRecoveryKey$`)...)
 		if c.Floor(f, "GetStoredKeys", len(gets), 1) && c.Floor(f, "key installation / verification", len(checks), 2) {
 			g := eng.Guard{Desc: "success edge of SetAesGcmKeyBytes(key) or VerifyRecoveryKey(key)"}
 			for _, k := range checks {
@@ -521,7 +521,7 @@ func c10gKeyVerification(c *eng.Ctx) {
 			c.Cut(f, "read of the root key the seal stores", instrsOf(gets), g, nil)
 			c.Clause("R5", "C10.3")
 			for _, k := range checks {
-				a := k.Common().Args
+				a := kArgs(k)
 				c.Prov(f, "key installed in / verified against the seal", k, a[len(a)-1], `^param:combinedKey$`)
 			}
 		}
@@ -534,7 +534,7 @@ func c10gKeyVerification(c *eng.Ctx) {
 		if f == nil {
 			continue
 		}
-		cmps := eng.Calls(f, `^crypto/subtle\.ConstantTimeCompare$`)
+		cmps := kCalls(f, `^crypto/subtle\.ConstantTimeCompare$`)
 		c.Clause("R2", "C10.3")
 		if !c.Floor(f, "constant-time comparison", len(cmps), 1) {
 			continue
@@ -544,7 +544,7 @@ func c10gKeyVerification(c *eng.Ctx) {
 		for _, cm := range cmps {
 			site := "whole submitted key compared with " + t.refDesc
 			var isKey, isRef bool
-			for _, a := range cm.Common().Args {
+			for _, a := range kArgs(cm) {
 				switch x := a.(type) {
 				case *ssa.Parameter:
 					isKey = isKey || eng.VarName(x) == "key"
@@ -557,9 +557,9 @@ func c10gKeyVerification(c *eng.Ctx) {
 				}
 			}
 			if isKey && isRef {
-				c.OK(f, site, cm.Pos(), eng.ExprDeep(cm.Common().Args[0])+" vs "+eng.ExprDeep(cm.Common().Args[1]))
+				c.OK(f, site, cm.Pos(), eng.ExprDeep(kArgs(cm)[0])+" vs "+eng.ExprDeep(kArgs(cm)[1]))
 			} else {
-				c.Violation(f, site, cm.Pos(), "operands are "+eng.ExprDeep(cm.Common().Args[0])+" and "+eng.ExprDeep(cm.Common().Args[1])+": not the key parameter itself and the reference key itself (a slice or a function of either accepts partial keys)", nil)
+				c.Violation(f, site, cm.Pos(), "operands are "+eng.ExprDeep(kArgs(cm)[0])+" and "+eng.ExprDeep(kArgs(cm)[1])+": not the key parameter itself and the reference key itself (a slice or a function of either accepts partial keys)", nil)
 			}
 		}
 	}
@@ -594,8 +594,8 @@ func c10gRawProtectsKeyring(c *eng.Ctx) {
 	}
 	c.Clause("R5", "C10.4")
 	var hp []ssa.CallInstruction
-	for _, h := range eng.Calls(f, `^strings\.HasPrefix$`) {
-		if ok, _, _ := eng.OriginsMatch(h.Common().Args[1], `^op:vault\.protectedPaths\[`); ok {
+	for _, h := range kCalls(f, `^strings\.HasPrefix$`) {
+		if ok, _, _ := eng.OriginsMatch(kArgs(h)[1], `^op:vault\.protectedPaths\[`); ok {
 			hp = append(hp, h)
 		}
 	}
@@ -604,7 +604,7 @@ func c10gRawProtectsKeyring(c *eng.Ctx) {
 	}
 	var hit []eng.Edge
 	for _, h := range hp {
-		c.Prov(f, "path matched against the protected prefixes", h, h.Common().Args[0], `^call:vault\.\(\*Core\)\.NamespaceByStoragePath#1$`)
+		c.Prov(f, "path matched against the protected prefixes", h, kArgs(h)[0], `^call:vault\.\(\*Core\)\.NamespaceByStoragePath#1$`)
 		hit = append(hit, eng.BoolEdges(h.Value(), true)...)
 	}
 	c.Clause("R4", "C10.4")
@@ -623,7 +623,7 @@ func c10gSealInternal(c *eng.Ctx) {
 	}
 	c.Clause("R4", "C10.2")
 	marked := eng.CondEdges(f, `^\(\*sync/atomic\.Bool\)\.CompareAndSwap\(\)$`, true)
-	seals := eng.Calls(f, `vault\.\(\*SealManager\)\.sealAll$`)
+	seals := kCalls(f, `vault\.\(\*SealManager\)\.sealAll$`)
 	if !c.Floor(f, "core marked sealed (CompareAndSwap succeeded)", len(marked), 1) || !c.Floor(f, "SealManager.sealAll", len(seals), 1) {
 		return
 	}
@@ -633,7 +633,7 @@ func c10gSealInternal(c *eng.Ctx) {
 	}
 	var blocked []eng.Edge
 	for _, e := range excepted {
-		for _, cl := range eng.Calls(f, e.pat) {
+		for _, cl := range kCalls(f, e.pat) {
 			fe := eng.CallFailEdges(cl)
 			if len(fe) == 0 {
 				continue
@@ -666,10 +666,10 @@ func c10gRotationEnvelope(c *eng.Ctx) {
 		}
 		c.Clause("R13", "C10.6")
 		envelope := ""
-		if len(eng.Calls(f, `BeginTx$`)) > 0 {
+		if len(kCalls(f, `BeginTx$`)) > 0 {
 			envelope = "storage transaction"
 		}
-		if len(eng.Calls(f, `(?i)(rekey|rotat).*(marker|journal|intent)|(?i)(marker|journal|intent).*(rekey|rotat)`)) > 0 {
+		if len(kCalls(f, `(?i)(rekey|rotat).*(marker|journal|intent)|(?i)(marker|journal|intent).*(rekey|rotat)`)) > 0 {
 			envelope = "intent marker"
 		}
 		if envelope == "" {
@@ -689,14 +689,14 @@ func c10gUpgradeKeyPublished(c *eng.Ctx) {
 		return
 	}
 	c.Clause("R5", "C10.5")
-	ser := eng.Calls(f, `barrier\.\(\*Key\)\.Serialize$`)
-	enc := eng.Calls(f, `barrier\.\(\*AESGCMBarrier\)\.encryptTracked$`)
+	ser := kCalls(f, `barrier\.\(\*Key\)\.Serialize$`)
+	enc := kCalls(f, `barrier\.\(\*AESGCMBarrier\)\.encryptTracked$`)
 	if !c.Floor(f, "Key.Serialize", len(ser), 1) || !c.Floor(f, "encryptTracked", len(enc), 1) {
 		return
 	}
 	for _, s := range ser {
 		site := "key published on the upgrade path = TermKey(term) of the live keyring"
-		k := s.Common().Args[0]
+		k := kArgs(s)[0]
 		bad := ""
 		for _, o := range eng.Origins(k) {
 			cl, ok := o.Val.(*ssa.Call)
@@ -718,6 +718,6 @@ func c10gUpgradeKeyPublished(c *eng.Ctx) {
 		}
 	}
 	for _, e := range enc {
-		c.Prov(f, "plaintext of the upgrade entry", e, e.Common().Args[4], `^call:barrier\.\(\*Key\)\.Serialize#0$`)
+		c.Prov(f, "plaintext of the upgrade entry", e, kArgs(e)[4], `^call:barrier\.\(\*Key\)\.Serialize#0$`)
 	}
 }
